@@ -1,7 +1,7 @@
 (* C15/Props.v -- the property theorems, and nothing else. *)
 From Coq Require Import ZArith List Lia Bool QArith Qround Qabs.
 From PV Require Import Base.NpList Base.NpSearch C15.Model C15.Spec C15.Proofs C15.Proofs2 C15.Proofs3 C15.Proofs4.
-From PV Require Import C15.ParamsModel C15.Proofs5 C15.Proofs6.
+From PV Require Import C15.ParamsModel C15.Proofs5 C15.Proofs6 C15.Proofs7.
 Import ListNotations.
 Open Scope Z_scope.
 
@@ -199,6 +199,15 @@ Theorem C15_count_bound_tight : forall (s c bs : Z) (n : nat),
 Proof. exact pair_count_coincident. Qed.
 Print Assumptions C15_count_bound_tight.
 
+(* ... hence the np.int32 storage is exact: wrap32 = the value an int32 cell holds after the exact count was added
+   into it; every partial sum of the non-negative increments lies between 0 and the final count *)
+Theorem C15_int32_exact : forall (t labels ids : list Z) (bs W : Z) (C : cube),
+  OneSided_Spec t labels ids bs W C -> Z.of_nat (length t) <= 65536 ->
+  forall i j k, (i < length ids)%nat -> (j < length ids)%nat -> Z.of_nat k <= W ->
+    wrap32 (nth k (cell C i j) 0) = nth k (cell C i j) 0.
+Proof. exact onesided_int32_exact. Qed.
+Print Assumptions C15_int32_exact.
+
 (* ---- error exits of the asserts on the parameters (rate > 0, equal shapes, binsize >= 1; firing_rate:
    bin_size > 0) and the `duration or 1.` default: None and 0 both mean 1, so there is no division by zero ---- *)
 Theorem C15_rejects_params : forall t labels ids rate bin win symm,
@@ -242,6 +251,18 @@ Theorem C15_params : forall (t : list Z) (rate bin win : Q) (times : list Q) (sa
   wb = 2 * half_of bin win + 1 /\ wb / 2 = half_of bin win /\ wb mod 2 = 1 /\ 1 <= wb.
 Proof. exact params_exact. Qed.
 Print Assumptions C15_params.
+
+(* the float layer of firing_rate: bc * np.c_[bc] (exact int64) * (bin_size / (duration or 1.)) = int -> float64
+   conversion, one division, one product, each returning a nearest float.  Under the two booleans Corr.v checks
+   (code 3 otherwise: bin/duration and every exact entry are float64 values) the float entry IS the exact
+   rational n_i * n_j * bin / duration of C15_rate *)
+Theorem C15_rate_params : forall (ni nj : Z) (bin d r : Q), Z.abs (ni * nj) < 2 ^ 53 ->
+  exact_f64 (bin / d) = true -> exact_f64 (inject_Z (ni * nj) * (bin / d)) = true ->
+  f_rate_entry ni nj bin d r -> (r == inject_Z (ni * nj) * (bin / d))%Q.
+Proof.
+  intros ni nj bin d r Hn H1 H2. apply rate_entry_exact; [exact Hn| |]; now apply exact_f64_is_f64.
+Qed.
+Print Assumptions C15_rate_params.
 
 (* what `Nearest` gives (the only facts about rounding used): an exactly representable result is returned
    exactly; a result never leaves an interval whose end points are floats; and `Nearest` is satisfiable for inexact
@@ -354,4 +375,19 @@ Proof.
     + apply (Nearest_wd (7 # 2)); [vm_compute; reflexivity|]. apply Nearest_refl.
       apply (is_f64_Qmake 7 2 1); [reflexivity|lia|reflexivity].
     + apply (Nearest_wd ((7 # 2) / 3)); [vm_compute; reflexivity|]. exact nearest_7_6.
+Qed.
+(* what phylib returned for 65537 coincident spikes (measured): the wrapped value of the true count *)
+Example C15_ex_int32 : wrap32 2147516416 = -2147450880 /\ wrap32 2147450880 = 2147450880.
+Proof. vm_compute. tauto. Qed.
+Example C15_ex_rate_params :
+  exact_f64 ((3 # 8) / (1 # 2)) = true /\ exact_f64 (inject_Z (3 * 2) * ((3 # 8) / (1 # 2))) = true /\
+  f_rate_entry 3 2 (3 # 8) (1 # 2) (9 # 2).
+Proof.
+  split; [vm_compute; reflexivity|]. split; [vm_compute; reflexivity|].
+  exists 6%Q, (3 # 4)%Q. split; [|split].
+  - apply (Nearest_wd (inject_Z 6)); [reflexivity|]. apply Nearest_refl, is_f64_Z. reflexivity.
+  - apply (Nearest_wd (3 # 4)); [vm_compute; reflexivity|]. apply Nearest_refl.
+    apply (is_f64_Qmake 3 4 2); [reflexivity|lia|reflexivity].
+  - apply (Nearest_wd (9 # 2)); [vm_compute; reflexivity|]. apply Nearest_refl.
+    apply (is_f64_Qmake 9 2 1); [reflexivity|lia|reflexivity].
 Qed.
